@@ -239,7 +239,7 @@ def gen_wrapper_cases(ctx, S):
                 continue
             attrs = [(a, S.resolve(a["path"])) for a in cl["attrs"]]
             attrs = [(a, fd) for a, fd in attrs if fd is not None and ("scalar" in fd["ty"] or fd["rep"])]
-            primary = (v == S.maxv) or any(rr["ver"] == v for rr in S.regs if rr["reg"] == r["reg"] and rr["name"] == r["name"])
+            primary = ctx.thorough or (v == S.maxv) or cid != S.bound(r["reg"], r["name"], S.maxv)
             def add(kw, kind):
                 cases.append((v, r["reg"], r["name"], kw, kind))
             add([], "none-set")
@@ -247,13 +247,14 @@ def gen_wrapper_cases(ctx, S):
             add([(a["name"], gen_value(rng, S, fd, "zero")) for a, fd in attrs], "all-default")
             if not primary:
                 continue
-            add([(a["name"], gen_value(rng, S, fd, "lo")) for a, fd in attrs], "all-low")
+            if ctx.thorough:
+                add([(a["name"], gen_value(rng, S, fd, "lo")) for a, fd in attrs], "all-low")
             add([(a["name"], gen_value(rng, S, fd, "hi")) for a, fd in attrs], "all-high")
             for a, fd in attrs:
                 modes = ["lo", "hi", "edge", "zero"] if ctx.thorough else [rng.choice(["lo", "hi", "edge"])]
                 for m in modes:
                     add([(a["name"], gen_value(rng, S, fd, m))], "single")
-            for _ in range(12 if ctx.thorough else 3):
+            for _ in range(30 if ctx.thorough else 2):
                 sub = [x for x in attrs if rng.random() < 0.5]
                 rng.shuffle(sub)
                 add([(a["name"], gen_value(rng, S, fd, rng.choice(["rand", "edge", "zero"]))) for a, fd in sub], "subset")
@@ -375,15 +376,19 @@ def gen_factory_cases(ctx, S):
                 return d
             add(full("rand"), "all-args")
             add(full("zero"), "all-default-values")
+            if opt:
+                add(full("rand", present=set()), "optionals-absent")
+            other_class = S.bound(f["reg"], f["target"], v) != S.bound(f["reg"], f["target"], S.maxv)
+            if not (ctx.thorough or v == S.maxv or other_class):
+                continue          # quick tier: the full sweep at the last version and wherever another class is bound
             add(full("lo"), "all-low")
             add(full("hi"), "all-high")
             if opt:
-                add(full("rand", present=set()), "optionals-absent")
                 for p in opt:
                     add(full("edge", present={p["name"]}), "one-optional")
-                for _ in range(6 if ctx.thorough else 2):
+                for _ in range(12 if ctx.thorough else 2):
                     add(full("edge", present={p["name"] for p in opt if rng.random() < 0.5}), "optional-subset")
-            for _ in range(10 if ctx.thorough else 2):
+            for _ in range(25 if ctx.thorough else 2):
                 add(full("edge"), "edge-mix")
     for f in S.js["opaque_factories"]:
         if (f["dom"], f["name"]) in PINNED_OPAQUE and f.get("params") == ["result_code"]:
@@ -534,7 +539,7 @@ def gen_parse_cases(ctx, S, valid_wires):
         add(ld(b["num"], ld(35, ld(1, b"") + vi(2, 7))), "prepare-empty-trigger")
         add(ld(b["num"], ld(35, ld(1, ld(9, b"")) + vi(2, 7))), "prepare-unknown-trigger")
     wires = [w for w in valid_wires if w]
-    n = 600 if ctx.thorough else 120
+    n = 2500 if ctx.thorough else 120
     for _ in range(n):
         w = bytes.fromhex(rng.choice(wires)) if wires else b"\x1a\x00"
         k = rng.randrange(7)
